@@ -315,8 +315,8 @@ func MutateFiles(r *vh.Rand, fs Files, kinds []string, k int, other string) (Fil
 			xg = append(xg, n)
 		}
 	}
-	if len(xg) > 0 && r.Chance(90) {
-		names = xg
+	if len(xg) > 0 {
+		names = xg // the package's plain Go files are never mutated (XGo does not compile their bodies)
 	}
 	var applied []string
 	for i := 0; i < k; i++ {
